@@ -712,3 +712,93 @@ func ruleEosAtEmpty(c *Ctx, r *Report) {
 	}
 	r.analysed(rule, fmt.Sprintf("%d stores of endOfStreamAt", n))
 }
+
+// ---------------------------------------------------------------------------
+// R-MORE-CLEAN-END (C20; added with fix F28): the loader reads clause after clause while the parser says
+// there is more. "No more" may be said only at a clean end of the text; when the lexer fails in the middle
+// of a token (an open quote, 0' at the end) the text is broken, not finished. The value returned by
+// Parser.More therefore depends on the lexer's token buffer (how much of a token has been accepted), not
+// only on whether reading a token failed. Before fix F28 any failure ended the loop and the load reported
+// success for the clauses read so far.
+
+func ruleMoreCleanEnd(c *Ctx, r *Report) {
+	const rule = "R-MORE-CLEAN-END"
+	more := c.method("Parser", "More")
+	if more == nil {
+		r.undecided(rule, "anchor:Parser.More", "-", "locate Parser.More", "not found")
+		return
+	}
+	desc := "the parser says 'no more clauses' only when no part of a token has been accepted"
+	// does v depend (data or control) on the lexer's buffer state?
+	touchesLexerState := func(x ssa.Value) bool {
+		switch y := x.(type) {
+		case *ssa.UnOp:
+			if fa, ok := y.X.(*ssa.FieldAddr); ok && (fieldName(fa) == "offset" || fieldName(fa) == "buf") && isEngNamed(deref(fa.X.Type()), "Lexer") {
+				return true
+			}
+		case *ssa.Call:
+			for _, a := range y.Call.Args {
+				if fa, ok := a.(*ssa.FieldAddr); ok && fieldName(fa) == "buf" && isEngNamed(deref(fa.X.Type()), "Lexer") {
+					return true
+				}
+			}
+		}
+		return false
+	}
+	depends := false
+	eachInstr(more, func(in ssa.Instruction) {
+		ret, ok := in.(*ssa.Return)
+		if !ok || len(ret.Results) != 1 {
+			return
+		}
+		seen := map[ssa.Value]bool{}
+		var walk func(x ssa.Value, d int)
+		walk = func(x ssa.Value, d int) {
+			if x == nil || seen[x] || d > 16 {
+				return
+			}
+			seen[x] = true
+			if touchesLexerState(x) {
+				depends = true
+				return
+			}
+			switch y := x.(type) {
+			case *ssa.Phi:
+				for _, e := range y.Edges {
+					walk(e, d+1)
+				}
+				// control dependence of a phi: the conditions of the blocks that choose the edge
+				for _, p := range y.Block().Preds {
+					if cnd := ifCond(p); cnd != nil {
+						walk(cnd, d+1)
+					}
+				}
+			case *ssa.BinOp:
+				walk(y.X, d+1)
+				walk(y.Y, d+1)
+			case *ssa.UnOp:
+				walk(y.X, d+1)
+			case *ssa.Convert:
+				walk(y.X, d+1)
+			case *ssa.Extract:
+				walk(y.Tuple, d+1)
+			case *ssa.Call:
+				for _, a := range y.Call.Args {
+					walk(a, d+1)
+				}
+			}
+		}
+		walk(ret.Results[0], 0)
+		// control dependence of the return itself
+		for f := range c.factsAt(in.Block()) {
+			walk(f.cond, 0)
+		}
+	})
+	key := fname(more) + "/depends-on-token-buffer"
+	if depends {
+		r.ok(rule, key, c.Pos(more.Pos()), desc, "the result depends on the lexer's token buffer", true)
+	} else {
+		r.bad(rule, key, c.Pos(more.Pos()), desc, "the result depends only on whether a token could be read: a text that ends inside a token (foo(1). 'abc) is cut off there and the load reports success")
+	}
+	r.analysed(rule, fname(more))
+}
